@@ -328,4 +328,160 @@ theorem isHdr_append_of_isHdr {a : List Char} (b : List Char) (h : isHdr a = tru
   | nil => simp [isHdr] at h
   | cons c a => simpa [isHdr] using h
 
+/-! ### a user supplied header after `_write_swc` turned its lines into comments -/
+
+theorem splitAll_ne_nil (cs : List Char) : splitAll cs ≠ [] := by
+  cases cs with
+  | nil => simp [splitAll]
+  | cons c cs =>
+    unfold splitAll
+    split
+    · simp
+    · split <;> simp
+
+theorem splitAll_no_nl_self (p : List Char) (hp : '\n' ∉ p) : splitAll p = [p] := by
+  induction p with
+  | nil => rfl
+  | cons c p ih =>
+    have hc : c ≠ '\n' := fun h => hp (by simp [h])
+    have := ih (fun h => hp (List.mem_cons_of_mem _ h))
+    simp [splitAll, hc, this]
+
+theorem splitAll_append_nl (p : List Char) (hp : '\n' ∉ p) (r : List Char) : splitAll (p ++ '\n' :: r) = p :: splitAll r := by
+  induction p with
+  | nil => simp [splitAll]
+  | cons c p ih =>
+    have hc : c ≠ '\n' := fun h => hp (by simp [h])
+    have := ih (fun h => hp (List.mem_cons_of_mem _ h))
+    simp [splitAll, hc, this]
+
+theorem splitAll_joinNl (ps : List (List Char)) (hne : ps ≠ []) (h : ∀ p ∈ ps, '\n' ∉ p) : splitAll (joinNl ps) = ps := by
+  induction ps with
+  | nil => exact absurd rfl hne
+  | cons p ps ih =>
+    cases ps with
+    | nil => exact splitAll_no_nl_self p (h p List.mem_cons_self)
+    | cons q ps =>
+      simp only [joinNl]
+      rw [splitAll_append_nl p (h p List.mem_cons_self), ih (by simp) (fun x hx => h x (List.mem_cons_of_mem _ hx))]
+
+theorem splitAll_pieces_no_nl (cs : List Char) : ∀ p ∈ splitAll cs, '\n' ∉ p := by
+  induction cs with
+  | nil => intro p hp; simp [splitAll] at hp; subst hp; simp
+  | cons c cs ih =>
+    intro p hp
+    unfold splitAll at hp
+    split at hp
+    · rcases List.mem_cons.mp hp with rfl | hp
+      · simp
+      · exact ih p hp
+    · rename_i hc
+      split at hp
+      · rename_i q qs hq
+        rcases List.mem_cons.mp hp with rfl | hp
+        · intro hm
+          rcases List.mem_cons.mp hm with hm | hm
+          · exact hc hm.symm
+          · exact ih q (by rw [hq]; exact List.mem_cons_self) hm
+        · exact ih p (by rw [hq]; exact List.mem_cons_of_mem _ hp)
+      · simp at hp; subst hp
+        intro hm; simp at hm; exact hc hm.symm
+
+theorem splitAll_append_singleton_nl (h : List Char) : splitAll (h ++ ['\n']) = splitAll h ++ [[]] := by
+  induction h with
+  | nil => simp [splitAll]
+  | cons c h ih =>
+    simp only [List.cons_append, splitAll]
+    split
+    · rw [ih]; rfl
+    · rw [ih]
+      cases hs : splitAll h with
+      | nil => exact absurd hs (splitAll_ne_nil h)
+      | cons q qs => rfl
+
+/-- Every line of a text is one of its `split("\n")` pieces. -/
+theorem linesAux_mem_splitAll : ∀ (cs cur : List Char) (l : List Char), l ∈ linesAux cur cs →
+    ∃ p ps, splitAll cs = p :: ps ∧ (l = cur.reverse ++ p ∨ l ∈ ps) := by
+  intro cs
+  induction cs with
+  | nil =>
+    intro cur l hl
+    refine ⟨[], [], rfl, Or.inl ?_⟩
+    simp only [linesAux] at hl
+    split at hl
+    · simp at hl
+    · simp at hl; simp [hl]
+  | cons c cs ih =>
+    intro cur l hl
+    simp only [linesAux] at hl
+    split at hl
+    · rename_i hc
+      subst hc
+      refine ⟨[], splitAll cs, by simp [splitAll], ?_⟩
+      rcases List.mem_cons.mp hl with rfl | hl
+      · left; simp
+      · obtain ⟨p, ps, hs, hor⟩ := ih [] l hl
+        right; rw [hs]
+        rcases hor with rfl | hm
+        · simp
+        · exact List.mem_cons_of_mem _ hm
+    · rename_i hc
+      obtain ⟨p, ps, hs, hor⟩ := ih (c :: cur) l hl
+      refine ⟨c :: p, ps, by simp [splitAll, hc, hs], ?_⟩
+      rcases hor with rfl | hm
+      · left; simp
+      · right; exact hm
+
+theorem lines_mem_splitAll {cs l : List Char} (hl : l ∈ lines cs) : l ∈ splitAll cs := by
+  obtain ⟨p, ps, hs, hor⟩ := linesAux_mem_splitAll cs [] l hl
+  rw [hs]
+  rcases hor with rfl | hm
+  · simp
+  · exact List.mem_cons_of_mem _ hm
+
+theorem lines_terminateIf_mem (b : Bool) {h l : List Char} (hl : l ∈ lines (terminateIf b h)) : l ∈ splitAll h ∨ l = [] := by
+  have := lines_mem_splitAll hl
+  unfold terminateIf at this
+  split at this
+  · rw [splitAll_append_singleton_nl] at this
+    rcases List.mem_append.mp this with h1 | h1
+    · exact Or.inl h1
+    · right; simpa using h1
+  · exact Or.inl this
+
+theorem commentLine_ok (pre : List Char) (hp : isHdr pre = true) (l : List Char) :
+    isHdr (commentLine pre l) = true ∨ isBlank (commentLine pre l) = true := by
+  unfold commentLine
+  cases h1 : isHdr l with
+  | true => simp [h1]
+  | false =>
+    cases h2 : isBlank l with
+    | true => simp [h1, h2]
+    | false =>
+      simp only [h1, h2, Bool.or_self, Bool.false_eq_true, if_false]
+      exact Or.inl (isHdr_append_of_isHdr l hp)
+
+theorem commentLine_no_nl (pre : List Char) (hpre : '\n' ∉ pre) (l : List Char) (hl : '\n' ∉ l) : '\n' ∉ commentLine pre l := by
+  unfold commentLine
+  split
+  · exact hl
+  · intro hm
+    rcases List.mem_append.mp hm with h | h
+    · exact hpre h
+    · exact hl h
+
+/-- **Every line of the header text `_write_swc` writes for a user supplied header is a comment or blank**, whatever the string. -/
+theorem commentised_lines_ok (b : Bool) (pre : List Char) (hp : isHdr pre = true) (hpre : '\n' ∉ pre) (h : List Char) :
+    ∀ l ∈ lines (terminateIf b (commentiseWith pre h)), isHdr l = true ∨ isBlank l = true := by
+  intro l hl
+  rcases lines_terminateIf_mem b hl with hm | rfl
+  · unfold commentiseWith at hm
+    rw [splitAll_joinNl _ (by simp [splitAll_ne_nil])] at hm
+    · obtain ⟨q, _, rfl⟩ := List.mem_map.mp hm
+      exact commentLine_ok pre hp q
+    · intro p hpm
+      obtain ⟨q, hq, rfl⟩ := List.mem_map.mp hpm
+      exact commentLine_no_nl pre hpre q (splitAll_pieces_no_nl h q hq)
+  · right; rfl
+
 end Navis.SwcText
